@@ -94,6 +94,8 @@ type Behaviour struct {
 	Gate  func(req *Request, i int) bool
 	// DeclaredLen overrides the Content-Length announced (for truncated bodies)
 	DeclaredLen int
+	// OnDone is called when the backend has finished with this connection
+	OnDone func()
 }
 
 func OK(body string) Behaviour {
@@ -392,6 +394,9 @@ func (b *Backend) serve(c net.Conn, side bool) {
 	b.conns.Add(1)
 	bh := plan(req)
 	b.act(c, req, bh)
+	if bh.OnDone != nil {
+		bh.OnDone()
+	}
 }
 
 func rst(c net.Conn) {
@@ -415,6 +420,15 @@ func (b *Backend) act(c net.Conn, req *Request, bh Behaviour) {
 		return
 	case "garbage":
 		w([]byte("\x00\xffnot http at all\r\n\r\n"))
+		return
+	case "await-close": // answer nothing; wait until the peer (olla) closes the upstream connection
+		buf := make([]byte, 1)
+		c.SetReadDeadline(time.Now().Add(3 * time.Second))
+		if _, err := c.Read(buf); err != nil {
+			if ne, ok := err.(net.Error); !ok || !ne.Timeout() {
+				req.closedSeen.Store(true)
+			}
+		}
 		return
 	case "hold":
 		select {
